@@ -8,6 +8,42 @@
 
 const vm = require('vm')
 
+// The list manager of the REAL runtime (glass-easel/src/tmpl/range_list_diff.ts with its types erased by
+// lib/tsstrip.py, regenerated from /repo on every run): used for every wx:for when the environment
+// names the generated module; the hand-written diffList below is the fallback for stand-alone use.
+let RealRangeListManager = null
+const listWarnings = []
+if (process.env.GE_RLD_JS) {
+  RealRangeListManager = require(process.env.GE_RLD_JS)((msg) => { listWarnings.push(String(msg)) }).RangeListManager
+}
+const shadowRootStub = { getHostNode() { return null } }
+// the part of glass-easel's Element that RangeListManager uses (element.ts: insertChildSingleOperation /
+// insertChildBatchInsertion / insertChildBatchRemoval, child list handling only)
+function elemAdapter(n) {
+  return {
+    get childNodes() { return n.children },
+    insertChildren(children, index) {
+      const rel = index >= 0 ? n.children[index] : undefined
+      if (rel) n.children.splice(index, 0, ...children)
+      else n.children.push(...children)
+    },
+    removeChildren(index, count) { n.children.splice(index, count) },
+    insertChildAt(child, index) {
+      let pos = index
+      const old = n.children.indexOf(child)
+      if (old >= 0) {
+        n.children.splice(old, 1)
+        if (old < pos) pos -= 1
+      }
+      if (pos < 0) n.children.push(child)
+      else n.children.splice(pos, 0, child)
+    },
+  }
+}
+function guardListSize(list) {
+  if (typeof list === 'number' && list > 10000) throw new Error('list too long for the reference runtime')
+}
+
 function mkNode(kind, extra) {
   return Object.assign({ kind, children: [] }, extra)
 }
@@ -167,6 +203,14 @@ class Runtime {
       (list, key, listU, lvaluePath, itemCallback) => {
         self.rec('F', [list, key, lvaluePath])
         const n = mkNode('for', { keyName: key })
+        if (RealRangeListManager) {
+          guardListSize(list)
+          Object.defineProperty(n, 'keyList', { enumerable: false, writable: true, value: null })
+          n.keyList = new RealRangeListManager(key, list, elemAdapter(n), shadowRootStub,
+            (item, index) => self.newListItem(item, index, lvaluePath, itemCallback))
+          out.push(n)
+          return
+        }
         const { items, indexes } = listItems(list)
         n.rawKeys = rawKeysOf(key, items)
         n.oldIndexes = indexes
@@ -266,6 +310,20 @@ class Runtime {
   }
 
   diffList(n, list, keyName, oriU, lvaluePath, itemCallback) {
+    if (RealRangeListManager) {
+      guardListSize(list)
+      const me = this
+      n.keyList.diff(list, oriU, elemAdapter(n),
+        (item, index) => me.newListItem(item, index, lvaluePath, itemCallback),
+        (item, index, u, indexChanged, node) => {
+          if (!node) return
+          me.updateChildren((isCreation, T, E, B, F, S, J) => {
+            itemCallback(false, item, index, u, indexChanged ? true : undefined,
+              lvaluePath ? [...lvaluePath, index] : null, T, E, B, F, S, J)
+          }, node)
+        })
+      return
+    }
     const { items, indexes } = listItems(list)
     const oldRawKeys = n.rawKeys
     const oldIndexes = n.oldIndexes
